@@ -188,7 +188,9 @@ class MiniEval(object):
         if isinstance(e, ast.Attribute):
             b = self.ev(e.value, env, fn)
             if b.kind == 'cmp' and e.attr == 'obj':
-                return raw(b.pytype)
+                r0 = raw(b.pytype)
+                r0.who = b.who
+                return r0
             if b.kind == 'cmp' and e.attr == 'inner':
                 return raw(b.inner)
             if isinstance(e.value, ast.Call) and norm(e.value.func) == 'type' and e.attr == '__name__':
@@ -224,6 +226,21 @@ class MiniEval(object):
                 return self.lt(l, r)
             if isinstance(op, ast.Eq):
                 return self.eq(l, r)
+            if isinstance(op, (ast.LtE, ast.Gt, ast.GtE)) and l.kind == 'raw' and r.kind == 'raw':
+                # the native operator on the wrapped objects themselves: TypeError across families (and for None, None);
+                # inside a family it is the family's order -- in oracle mode the order the scenario gives the two operands
+                native_lt(l.pytype, r.pytype)
+                if self.oracle is not None and {l.who, r.who} == {'self', 'other'}:
+                    o = self.oracle
+                    lt, eq, gt = (o['lt'], o['eq'], o['gt']) if l.who == 'self' else (o['gt'], o['eq'], o['lt'])
+                    res = {ast.LtE: lt or eq, ast.Gt: gt, ast.GtE: gt or eq}[type(op)]
+                    return Val('const', 'bool', bool(res))
+                return Val('const', 'native', 'NATIVE')
+            if isinstance(op, (ast.LtE, ast.Gt, ast.GtE)) and self.oracle is not None and l.kind == 'cmp':
+                o = self.oracle
+                lt, eq, gt = (o['gt'], o['eq'], o['lt']) if (l.who == 'other' and r.who == 'self') else (o['lt'], o['eq'], o['gt'])
+                res = {ast.LtE: lt or eq, ast.Gt: gt, ast.GtE: gt or eq}[type(op)]
+                return Val('const', 'bool', bool(res))
             raise _Undecidable('comparison %s' % norm(e))
         if isinstance(e, ast.Call):
             fnm = norm(e.func)
@@ -1041,6 +1058,27 @@ def r44(ctx, rep):
                                          'a missing cell must be ordered as None (lowest), not as %s' % norm(k.value), node)
         if not uses:
             rep.undecided('R4.4', fn, 'def ' + fn.name, 'the positions `%s` are never iterated or handed on' % A, fn.node)
+    # arity: operator.itemgetter(p) hands back the cell itself for ONE position and a tuple for several; the fallback for
+    # short rows must do the same, or a short row gets the key (None,) where the rows around it have scalar keys
+    fb = ctx.project.need_fn('petl.comparison:_itemgetter_with_default')
+    va = fb.node.args.vararg
+    if va is not None:
+        A = va.arg
+        tests = [x for x in ast.walk(fb.node) if isinstance(x, ast.Compare) and len(x.ops) == 1 and
+                 norm(x.left) == 'len(%s)' % A and isinstance(x.comparators[0], ast.Constant) and x.comparators[0].value in (1, 2)]
+        tuples = [x for x in ast.walk(fb.node) if isinstance(x, ast.Call) and norm(x.func) == 'tuple'] + \
+                 [x for x in ast.walk(fb.node) if isinstance(x, ast.Tuple) and isinstance(x.ctx, ast.Load) and
+                  any(isinstance(y, ast.Starred) or True for y in x.elts) and x.elts]
+        n += 1
+        if tests:
+            rep.held('R4.4', fb, 'single position: scalar key', 'the fallback distinguishes one position from several (%s)' % norm(tests[0]), tests[0])
+        elif tuples:
+            rep.violated('R4.4', fb, 'single position: scalar key',
+                         'the fallback getter builds a tuple for every number of positions: for a single-field key '
+                         'operator.itemgetter returns the cell itself, so a row too short for the key is ordered by (None,) '
+                         'while all other rows are ordered by scalars -- it no longer sorts with the None keys', fb.node)
+        else:
+            rep.undecided('R4.4', fb, 'single position: scalar key', 'the shape of the fallback getter was not recognised', fb.node)
     ctx.floor('key_getter_sites', n, 3)
 
 
